@@ -61,6 +61,9 @@ class Loader(yaml.SafeLoader):
         """
         try:
             return super().fetch_more_tokens()
+        except UnicodeError:
+            # from reading a text stream, not from the scanner
+            raise
         except (ValueError, OverflowError) as e:
             raise yaml.scanner.ScannerError(
                     'while scanning the YAML text', None,
